@@ -293,6 +293,97 @@ def unit_wait(unit):
     return _explore(body, unit, max_paths=6000)
 
 
+def unit_wait_all(unit):
+    """PCE500Emulator._simulate_wait(n) for EVERY n (symbolic trip count, unbounded integers): the loop is
+    verified by the range rule (symx/astpass.RangeRule) with the invariant, over the ghost iteration number j,
+        cycle = c0 + j;  next_T = next_T0 + k_T * period_T, k_T >= 0, next_T > cycle, (k_T = 0 or next_T - period_T <= cycle);
+        #ISR updates for T so far = k_T;  ISR = ISR0 | (k_M > 0) | (k_S > 0) << 1;  pending = pending0 or k_M > 0 or k_S > 0
+    i.e. after every cycle each timer has fired exactly once per period boundary crossed and its target is
+    strictly in the future.  Every ISR update is checked to happen at the boundary cycle itself.  With the timers
+    disabled or inside a handler nothing fires and only the cycle counter moves."""
+    from symx import env, astpass
+    env.setup(extra=["pce500.scheduler", "pce500.emulator"])
+    import types
+    import pce500.scheduler as SCH
+    import pce500.emulator as PE
+    enabled, in_irq = unit.get("enabled", True), unit.get("in_interrupt", False)
+    ISR = 0x100000 + 0xFC
+    live = enabled and not in_irq
+
+    def body(eng):
+        fake, sm = _fake_emulator(eng, PE, SCH, enabled, in_irq)
+        mp, sp, nm0, ns0, c0, n = (eng.fresh_int(x) for x in ("mp", "sp", "nm", "ns", "c0", "n"))
+        eng.assume(core._b(core.and_(mp > 0, sp > 0, nm0 > c0, ns0 > c0)))
+        sch = SCH.TimerScheduler.__new__(SCH.TimerScheduler)
+        sch.mti_period, sch.sti_period, sch.enabled, sch._next_mti, sch._next_sti = mp, sp, True, nm0, ns0
+        fake._scheduler = sch
+        fake.cycle_count = c0
+        pend0 = eng.fresh_bool("pending0")
+        fake._irq_pending = pend0
+        isr0 = sm.cell_int(ISR)
+        g = dict(cm=0, cs=0)      # ghosts k_M, k_S: status-bit updates seen so far (= boundaries crossed, by the invariant)
+        P = lambda nme, c, d=None: eng.prove(nme, core._b(c), detail=d)
+        real_set = types.MethodType(PE.PCE500Emulator._set_isr_bits, fake)
+
+        def logged(mask):
+            # every status-bit update happens at the boundary cycle itself (the target was bumped by exactly one period)
+            if mask == 1:
+                g["cm"] = g["cm"] + 1
+                P("wait:mti-update-at-its-boundary-cycle", fake.cycle_count == sch._next_mti - mp)
+            elif mask == 2:
+                g["cs"] = g["cs"] + 1
+                P("wait:sti-update-at-its-boundary-cycle", fake.cycle_count == sch._next_sti - sp)
+            else:
+                P("wait:only-timer-bits-raised", False, f"mask {mask}")
+            return real_set(mask)
+        fake._set_isr_bits = logged
+        srcs = [None, PE.IRQSource.MTI, PE.IRQSource.STI]
+
+        def havoc_state(L, fresh):
+            fake.cycle_count = fresh("cycle")
+            sch._next_mti, sch._next_sti = fresh("next_mti"), fresh("next_sti")
+            for k in g:
+                g[k] = fresh("ghost_" + k)
+            sm.write(ISR, eng.fresh(f"isr_havoc!{eng.nfresh}", 8))
+            fake._irq_pending = eng.fresh_bool(f"pending_havoc!{eng.nfresh}")
+            fake._irq_source = srcs[eng.choice(3, tag="irq_source")]
+
+        def inv(L, j):
+            cc, nm, ns = fake.cycle_count, sch._next_mti, sch._next_sti
+            isr_now = SymInt(z3.ZeroExt(56, sm.now(ISR)), 0, 255)
+            base = core.and_(cc == c0 + j, sch.mti_period == mp, sch.sti_period == sp, sch.enabled is True)
+            if not live:
+                return core.and_(base, nm == nm0, ns == ns0, g["cm"] == 0, g["cs"] == 0, isr_now == isr0,
+                                 SymBool(core._b(fake._irq_pending) == core._b(pend0)))
+            tm = core.and_(nm == nm0 + g["cm"] * mp, g["cm"] >= 0, nm > cc, core.or_(g["cm"] == 0, nm - mp <= cc))
+            ts = core.and_(ns == ns0 + g["cs"] * sp, g["cs"] >= 0, ns > cc, core.or_(g["cs"] == 0, ns - sp <= cc))
+            want = isr0 | core.ite(g["cm"] > 0, 1, 0) | core.ite(g["cs"] > 0, 2, 0)
+            pend = z3.Or(core._b(pend0), core._b(g["cm"] > 0), core._b(g["cs"] > 0))
+            return core.and_(base, tm, ts, isr_now == want, SymBool(core._b(fake._irq_pending) == pend))
+
+        fresh = lambda nme: eng.fresh_int(nme + f"!{eng.nfresh}") if not _bump(eng) else None
+        spec = astpass.RangeSpec(inv, havoc_state, covers=("self.cycle_count",))
+        wait, ctx = astpass.rebuild_with_range(PE.PCE500Emulator._simulate_wait, {0: spec}, fresh, n_for=1)
+        wait(fake, n)
+        t = c0 + core.ite(n > 0, n, 0)
+        P("wait:cycle-count", fake.cycle_count == t)
+        if live:
+            for tag, cnt, per, n0, nx in (("mti", g["cm"], mp, nm0, sch._next_mti), ("sti", g["cs"], sp, ns0, sch._next_sti)):
+                P(f"wait:{tag}-once-per-boundary-crossed", core.and_(cnt >= 0, n0 + cnt * per > t, core.or_(cnt == 0, n0 + (cnt - 1) * per <= t)),
+                  "#status-bit updates = #{b in target0 + N*period : b <= final cycle}")
+                P(f"wait:{tag}-target-strictly-in-future", nx > t)
+                P(f"wait:{tag}-target-is-next-boundary", nx == n0 + cnt * per)
+            P("wait:isr-bits", SymInt(z3.ZeroExt(56, sm.now(ISR)), 0, 255) == (isr0 | core.ite(g["cm"] > 0, 1, 0) | core.ite(g["cs"] > 0, 2, 0)))
+        else:
+            P("wait:suppressed", core.and_(g["cm"] == 0, g["cs"] == 0, sch._next_mti == nm0, sch._next_sti == ns0), "timers disabled or inside a handler: nothing fires")
+        k = z3.BitVec("k!frame", 64)
+        P("wait:frame", SymBool(z3.ForAll([k], z3.Implies(k != ISR, z3.Select(sm.arr, k) == z3.Select(sm.init, k)))) if False else
+          SymBool(z3.Implies(k != ISR, z3.Select(sm.arr, k) == z3.Select(sm.init, k))), "no memory cell other than ISR changes")
+        return "wait-all"
+
+    return _explore(body, unit, max_paths=6000)
+
+
 class _JsonStub:
     """Contract stub for the json module inside pce500.emulator: ints and bools survive a
     dumps/loads round trip unchanged (trusted stdlib fact).  dumps records the object and
